@@ -17,14 +17,20 @@ impl TexlangState for St {
 
 /// returns (value, number of recovered errors) or None on panic / fatal error
 fn scan<T: Parsable + 'static>(source: &str) -> Option<(T, usize)> {
+    scan_rest::<T>(source).map(|(v, e, _)| (v, e))
+}
+/// the same, with the characters left in the input after the scan (control sequences shown as a backslash)
+fn scan_rest<T: Parsable + 'static>(source: &str) -> Option<(T, usize, String)> {
     let src = source.to_string();
     std::panic::catch_unwind(move || {
         let mut vm = vm::VM::<St>::new_with_built_in_commands(HashMap::new());
         vm.push_source("".to_string(), src).unwrap();
         let input = vm::ExecutionInput::new(&mut vm);
         let got = T::parse(input).ok()?;
+        let mut rest = String::new();
+        while let Ok(Some(t)) = input.unexpanded().next() { rest.push(t.char().unwrap_or('\\')); }
         let n = *vm.state.num_errors.borrow();
-        Some((got, n))
+        Some((got, n, rest))
     }).ok().flatten()
 }
 
@@ -93,9 +99,10 @@ fn integers() {
         let negative = sign.matches('-').count() % 2 == 1;
         let (mag, errs) = if v > i32::MAX as u64 { (i32::MAX as i128, 1usize) } else { (v as i128, 0usize) };
         let want = if negative { -mag } else { mag };
-        let got = scan::<i32>(&src);
-        if !matches!(&got, Some((g, e)) if *g as i128 == want && *e == errs) {
-            println!("WITNESS {{\"fn\": \"parse_constant\", \"unit_fns\": [\"parse_constant\", \"add_lsd\", \"parse_integer\", \"parse_optional_signs\"], \"source\": \"{src}\", \"observed\": \"{:?}\", \"expected\": \"{want} with {errs} error(s) (TeX.2021.440-445)\"}}", got);
+        // every digit of the constant and ONE following space are consumed, also after an overflow (TeX.2021.445)
+        let got = scan_rest::<i32>(&format!("{src}x"));
+        if !matches!(&got, Some((g, e, rest)) if *g as i128 == want && *e == errs && rest.trim_end() == "x") {
+            println!("WITNESS {{\"fn\": \"parse_constant\", \"unit_fns\": [\"parse_constant\", \"add_lsd\", \"parse_integer\", \"parse_optional_signs\"], \"source\": \"{src}\", \"observed\": \"{}\", \"expected\": \"{want} with {errs} error(s) and only `x` left in the input (TeX.2021.440-445)\"}}", format!("{:?}", got).replace('"', "'"));
             return;
         }
     } } }
